@@ -86,6 +86,12 @@ impl<T: Samples> Samples for Option<T> {
     }
 }
 
+impl<T> Samples for std::marker::PhantomData<T> {
+    fn samples(_depth: u32) -> Vec<Self> {
+        vec![std::marker::PhantomData]
+    }
+}
+
 impl<T: Samples> Samples for Box<T> {
     fn samples(depth: u32) -> Vec<Self> {
         T::samples(depth).into_iter().map(Box::new).collect()
